@@ -128,6 +128,36 @@ def r27_2(ctx, rep):
     rep.ob(R, AST + ":Tree.extend", "parent links refreshed", bool(i and j and j[-1] > i[-1]), "after merging, parent links must be refreshed (lookups go through parent)")
 
 
+@SPEC.rule(
+    "R27.3",
+    "the parent refresh after a merge is total: in Tree._update_parent_refs every iteration over <parent>.classes.values() sets "
+    "the child's parent link and recurses into the child on every path — a branch that is skipped because it 'looks linked' keeps, "
+    "further down, classes adopted from another file with the parent chain of that file's placeholders",
+)
+def r27_3(ctx, rep):
+    from ..cfg import CFG
+    R = "R27.3"
+    fn = ctx.func(AST, "Tree._update_parent_refs", R)
+    site = AST + ":Tree._update_parent_refs"
+    par = fn.args.args[1].arg
+    cfg = CFG(fn, R)
+    loops = [x for x in cfg.nodes if x.kind == "iter" and norm(x.ast.iter) in ("%s.classes.values()" % par, "%s.classes.items()" % par)]
+    if not loops:
+        raise MechanismMissing(R, "loop over the parent's classes not found")
+    it = loops[0]
+    child = it.ast.target.id if isinstance(it.ast.target, ast.Name) else (it.ast.target.elts[1].id if isinstance(it.ast.target, ast.Tuple) else None)
+    entry = [s_ for s_ in cfg.succ[it.id] if cfg.nodes[s_].kind == "assume" and cfg.nodes[s_].taken][0]
+    sets = {x.id for x in cfg.stmts() if isinstance(x.ast, ast.Assign) and norm(x.ast.targets[0]) == "%s.parent" % child and is_name(x.ast.value, par)}
+    recs = {x.id for x in cfg.stmts() if any(isinstance(c.func, ast.Attribute) and c.func.attr == fn.name and c.args and is_name(c.args[0], child) for c in calls(x.ast))}
+    for what, nodes, msg in (("parent link set for every class", sets, "`%s.parent = %s`" % (child, par)),
+                             ("recursion into every class", recs, "the recursive call on `%s`" % child)):
+        w = cfg.path(entry, it.id, avoid=nodes - {it.id}) if nodes else [cfg.nodes[entry]]
+        rep.ob(R, site, what, bool(nodes) and w is None,
+               "some iteration reaches the next class without %s: classes below a skipped branch keep the parent links they had in the file "
+               "they came from, and lookups that go up through `parent` (find_class) fail or find another class depending on the merge order" % msg,
+               path=cfg.describe(w) if w else "")
+
+
 # -- seeded variants ---------------------------------------------------------
 from ._mut import delete_stmt_where, replace_in_func  # noqa: E402
 
@@ -166,3 +196,15 @@ def _m3(mod):
 @SPEC.mutant("placeholder kept instead of the definition", AST, "R27.1", "", needs_fixed=True)
 def _m4(mod):
     return mod if delete_stmt_where(mod, "Class._extend", lambda st: norm(st) == "self.classes[class_name] = other.classes[class_name]", which=1) else None
+
+
+@SPEC.mutant("parent refresh skips branches that look linked", AST, "R27.3", "parent link set")
+def _m_skip(mod):
+    def edit(fn):
+        for lp in ast.walk(fn):
+            if isinstance(lp, ast.For):
+                lp.body.insert(0, ast.parse("if c.parent is parent:\n    continue").body[0])
+                return True
+        return False
+
+    return mod if replace_in_func(mod, "Tree._update_parent_refs", edit) else None
